@@ -419,7 +419,9 @@ class NetLiquidationValue(Contract):
         def post():
             vn = SymBrokerView(I, c.self, I.snapshot())
             return [PW("positions_unchanged", lambda k: z3.Implies(k != vo.cash, vn.qty(k) == vo.qty(k))),
-                    Cl("equity_preserved", ghost.gsum(I, fam, None) == ghost.gsum(I, fam, c.old))]
+                    Cl("equity_preserved", ghost.gsum(I, fam, None) == ghost.gsum(I, fam, c.old)),
+                    PW("wf_preserved", lambda k: wf_at(vn, k)), Cl("cash_ok", cash_ok(vn)),
+                    PW("static_keys", lambda k: z3.Implies(z3.Or(vn.in_qty(k), vn.in_margins(k), vn.has_last(k)), static_key(k)))]
         out = {"ValueError": {"when": self.any_missing(c), "modifies": mods, "post": LazyList(post)}}
         if c.raise_if_broke is True:
             out["EndOfEpisodeError"] = {"when": z3.And(z3.Not(self.any_missing(c)), ghost.gsum(I, fam, c.old) <= 0),
